@@ -319,11 +319,14 @@ def worker(rec, shard, nshards, nrows, thorough, seed):
             ("delay-on", "A", 0.5), ("delay-dur", 1.0, 1.5)}
     small = [i for i, rk in enumerate(rowkinds) if (len(rk) == 0 or (len(rk) == 1 and rk[0] in keep)
                                                     or (len(rk) == 2 and rk[0][0].startswith("delay")))]
+    keep4 = {("on", "A"), ("off", "A"), ("on", "B/x"), ("tag",), ("dur", 1.5, "s"), ("delay-on", "A", 0.5), ("delay-dur", 1.0, 1.5)}
+    tiny = [i for i, rk in enumerate(rowkinds) if len(rk) == 0 or (len(rk) == 1 and rk[0] in keep4)]
     cases = []
     for n in range(1, nrows + 1):
         # histories of three and more rows use the reduced row menu (the full menu to the 3rd power times the onset grids is
-        # ~1e7 files); thorough adds the fourth row and the larger onset grid
-        menu_n = range(len(rowkinds)) if n <= 2 else small
+        # ~1e7 files); thorough adds the fourth row over eight row kinds, the larger row menu, and the larger onset grid for
+        # histories of up to two rows
+        menu_n = range(len(rowkinds)) if n <= 2 else small if n == 3 else tiny
         for combo in itertools.product(menu_n, repeat=n):
             cases.append(combo)
     # the histories of up to two rows also under a namespace prefix (every tag written ts:...)
@@ -335,7 +338,7 @@ def worker(rec, shard, nshards, nrows, thorough, seed):
             check_history(env_ns, rec, [(t, list(rowkinds[k])) for t, k in zip(ons, combo)])
     for ci in core.shard_order(len(cases), shard, nshards, seed):
         combo = cases[ci]
-        for ons in nondecreasing(len(combo), GRID if thorough else GRID[:3]):
+        for ons in nondecreasing(len(combo), GRID if thorough and len(combo) <= 2 else GRID[:3]):
             rows = [(t, list(rowkinds[k])) for t, k in zip(ons, combo)]
             check_history(env, rec, rows)
         if ci % 3001 == 0:
@@ -437,7 +440,7 @@ def observer_histories(ctx, depth):
 
 def run(ctx):
     nrows = ctx.pick(3, 4)
-    ctx.rec.notes["bounds"] = {"rows": nrows, "grid": GRID if ctx.thorough else GRID[:3], "items": [repr(m) for m in items_menu(ctx.thorough)]}
+    ctx.rec.notes["bounds"] = {"rows": nrows, "grid": GRID[:3], "grid_up_to_two_rows": GRID if ctx.thorough else GRID[:3], "items": [repr(m) for m in items_menu(ctx.thorough)]}
     ctx.parallel(worker, nrows, ctx.thorough, ctx.seed)
     observer_histories(ctx, ctx.pick(2, 3))
     ctx.rec.counts["states"] = len(ctx.rec.states)
